@@ -475,6 +475,7 @@ func TestVerif_C03_h1cut(t *testing.T) {
 			"Compared with the model: fail / ok+status+body, and the number of dials (1 iff the model allows reuse). Oracle: success implies the complete true body; second request succeeds; "+
 			"no dial before the second request beyond the first. non-trivial = cut strictly inside the message")
 	r := s.Rand()
+	rp := c03PosRand(1) // the round-6 dimensions draw from their own stream
 	nMsgs := verifh.N(220, 1500)
 	counts := map[string]int{}
 	cnt := func(k string) { s.Count(k); counts[k]++ }
@@ -503,7 +504,7 @@ func TestVerif_C03_h1cut(t *testing.T) {
 			mode := "eof"
 			// the connection ends with RST instead of FIN: for a close-delimited body that is the
 			// difference between a clean end and a read error, at every offset (every other k)
-			if k < len(m.stream) && (r.Intn(4) == 0 || (m.framing == "close" && r.Intn(2) == 0)) {
+			if rst := r.Intn(4) == 0; k < len(m.stream) && (rst || (m.framing == "close" && rp.Intn(2) == 0)) {
 				mode = "reset"
 			}
 			vs = append(vs, variant{k: k, mode: mode})
@@ -563,7 +564,7 @@ func TestVerif_C03_h1cut(t *testing.T) {
 			}
 			// exchange position: the scripted response answers the authorized request of a digest
 			// exchange / the last attempt of a retried call / the request after a redirect
-			if cc.pos = c03PickPos(r, cc.mode, v.k > 0); cc.pos != "" && m.code != 101 {
+			if cc.pos = c03PickPos(rp, cc.mode, v.k > 0); cc.pos != "" && m.code != 101 {
 				nw.scripts[0] = append([]c03Step{{data: c03PreludeH1(cc.pos)}}, first...)
 				cnt("pos:" + cc.pos)
 				if v.k < len(wire) || v.stream != "" {
@@ -775,6 +776,7 @@ func TestVerif_C03_h1tcp(t *testing.T) {
 		"the h1cut experiment over loopback TCP: a raw TCP peer reads the request, writes the first k bytes of a generated response and closes (FIN) or resets (SO_LINGER 0); stratified k; "+
 			"judged by the oracle: success implies k = len and the true body (close-delimited: the bytes sent); failure implies a fresh connection for the second request, which must succeed")
 	r := s.Rand()
+	rp := c03PosRand(2) // the round-6 dimensions draw from their own stream
 	peers := []*c03TCPPeer{newC03TCPPeer(t), newC03TCPPeer(t), newC03TCPPeer(t), newC03TCPPeer(t)}
 	defer func() {
 		for _, p := range peers {
@@ -792,6 +794,12 @@ func TestVerif_C03_h1tcp(t *testing.T) {
 		if i%8 == 7 {
 			m = c03GenMsg(r, 20000)
 		}
+		if i%5 == 2 {
+			// a guaranteed share of close-delimited responses with a body (FIN vs RST at body offsets)
+			for m.framing != "close" || len(m.body) < 4 || m.n1xx > 5 {
+				m = c03GenMsg(rp, 300)
+			}
+		}
 		for _, k := range c03Cuts(r, m.stream, false, verifh.N(3, 8)) {
 			if k < 0 || k > len(m.stream) {
 				continue
@@ -801,7 +809,7 @@ func TestVerif_C03_h1tcp(t *testing.T) {
 			mode := "eof"
 			end := error(io.EOF)
 			// RST (SO_LINGER 0) instead of FIN; close-delimited bodies at every other offset
-			if k < len(m.stream) && (r.Intn(3) == 0 || (m.framing == "close" && r.Intn(2) == 0)) {
+			if rst := r.Intn(3) == 0; k < len(m.stream) && (rst || (m.framing == "close" && rp.Intn(2) == 0)) {
 				mode, end = "reset", errC03Reset
 			}
 			firstSteps := []c03Step{{data: []byte(m.stream[:k]), end: end}}
@@ -817,7 +825,7 @@ func TestVerif_C03_h1tcp(t *testing.T) {
 			}
 			// (only with FIN: a RST may overtake the bytes already sent, and a reused connection that
 			// fails before the first response byte is replayed by the transport on a fresh one)
-			if cc.pos = c03PickPos(r, cc.mode, k > 0 && mode == "eof"); cc.pos != "" && m.code != 101 {
+			if cc.pos = c03PickPos(rp, cc.mode, k > 0 && mode == "eof"); cc.pos != "" && m.code != 101 {
 				firstSteps = append([]c03Step{{data: c03PreludeH1(cc.pos)}}, firstSteps...)
 				s.Count("pos:" + cc.pos)
 				reached["pos:"+cc.pos]++
